@@ -90,7 +90,7 @@ Policies == [i \in DOMAIN Exprs |-> WhenP(Exprs[i])] \o ScopePolicies \o StringP
 
 \* ------------------------------------------------------------------ mutants of the representative policies
 MutSeeds == [f \in 1..NForms |-> WhenP(Rep(f))] \o SubSeq(ScopePolicies, 1, 12) \o SubSeq(ScopePolicies, Len(ScopePolicies) - 3, Len(ScopePolicies))
-Replacements == << Id("principal"), Id("if"), Id("foo"), IntT(<<1>>), StrT(<<97>>), Op("("), Op(")"), Op(","), Op("=="), Op("<"),
+Replacements == << Id("principal"), Id("if"), Id("foo"), Id("__cedar"), IntT(<<1>>), StrT(<<97>>), Op("("), Op(")"), Op(","), Op("=="), Op("<"),
                    Op("&&"), Op("."), Op("::"), Op("-"), Op("!"), Op(";"), Op("{"), Op("}"), Op("["), Op("]"), Id("in"), Id("has"),
                    Id("like"), Id("is"), Id("then"), Id("else"), Id("true"), Id("when"), Op("@"), Op(":"), Op("*"), Op("+") >>
 Mutants(ts) ==
@@ -109,6 +109,15 @@ Named == <<
   PolToks(<<Id("principal"), Id("in"), Id("action"), Id("in"), Id("resource")>>),
   PolToks(<<Id("principal"), Id("has"), Id("a"), Id("has"), Id("b")>>),
   PolToks(<<Id("if"), Op("=="), IntT(<<1>>)>>), PolToks(<<Id("foo")>>), PolToks(<<Id("principal"), Op("."), Id("if")>>),
+  \* every reserved word in every identifier position
+  PolToks(<<Id("__cedar"), Op("::"), S(<<120>>)>>), PolToks(<<Id("U"), Op("::"), Id("__cedar"), Op("::"), S(<<120>>)>>),
+  PolToks(<<Id("context"), Op("."), Id("__cedar")>>), PolToks(<<Id("context"), Id("has"), Id("__cedar")>>),
+  PolToks(<<Id("context"), Id("has"), Id("a"), Op("."), Id("__cedar")>>), PolToks(<<Op("{"), Id("__cedar"), Op(":"), IntT(<<1>>), Op("}")>>),
+  PolToks(<<Id("principal"), Id("is"), Id("__cedar")>>), PolToks(<<Id("principal"), Id("is"), Id("U"), Op("::"), Id("in")>>),
+  PolToks(<<Id("true"), Op("::"), S(<<120>>)>>), PolToks(<<Id("context"), Op("."), Id("like")>>),
+  PolToks(<<Id("context"), Op("."), Id("then")>>), PolToks(<<Id("context"), Id("has"), Id("else")>>),
+  PolToks(<<Op("{"), Id("false"), Op(":"), IntT(<<1>>), Op("}")>>), PolToks(<<Id("principal"), Id("is"), Id("has")>>),
+  PolToks(<<Id("context"), Op("."), Id("is"), Op("("), Op(")")>>), PolToks(<<Id("in"), Op("("), IntT(<<1>>), Op(")")>>),
   PolToks(<<Id("principal"), Id("has"), Id("if")>>), PolToks(<<Id("principal"), Id("has"), IntT(<<1>>)>>),
   PolToks(<<Op("{"), Id("a"), Op(":"), IntT(<<1>>), Op(","), Id("a"), Op(":"), IntT(<<2>>), Op("}")>>),
   PolToks(<<Op("{"), Id("a"), Op(":"), IntT(<<1>>), Op(","), S(<<97>>), Op(":"), IntT(<<2>>), Op("}")>>),
